@@ -1081,17 +1081,6 @@ def sch_guard(ctx: Ctx) -> RuleResult:
         group = sorted((s for s in sites.values() if _licence(m, s)[0] == lic), key=lambda s: getattr(s["event"].node, "lineno", 0))
         if len(group) < 2:
             continue
-        # the awaited wait comes first: while the scheduler coroutine sits in the blocking wait on the thread futures the event loop is
-        # not served - taken first, it keeps async-thread nodes (and every other coroutine of the loop) from being observed at all
-        kinds_ = [s_["event"].data["kind"] for s_ in group]
-        if "async" in kinds_ and "conc" in kinds_:
-            first_async = kinds_.index("async") < kinds_.index("conc")
-            r.ob(first_async, {"licence": lic, "order of the waits": kinds_})
-            if not first_async:
-                r.violate(f"{m.fn.short}: under the {lic} licence the blocking wait on the thread futures precedes the awaited wait",
-                          _where(m, group[0]["event"].node), "the other licences await the async-thread futures first; here the event loop is "
-                          "blocked before it was given the hand: an async-thread node that needs a sibling coroutine to progress never "
-                          "finishes while a thread node is in flight", kinds_)
         g0 = group[0]["event"].guards
         for s in group[1:]:
             e = s["event"]
@@ -1103,6 +1092,31 @@ def sch_guard(ctx: Ctx) -> RuleResult:
                           "futures of this set that have already finished are not collected when the other wait released something: the "
                           "nodes they make ready are missing from the set the selection ranks (a lower compound priority starts first) and "
                           "a failure stored in one of them is stepped over while further nodes are started", norm_src(e.node)[:120])
+    return r
+
+
+def sch_waitorder(ctx: Ctx) -> RuleResult:
+    """Under every licence that waits on both kinds of futures the awaited wait comes first (loop liveness, C17 only: the order is
+    indifferent to what starts, to idling and to the observation of failures)."""
+    r = RuleResult("SCH-WAITORDER")
+    m = model(ctx)
+    ps = _sane(m, r)
+    sites = _wait_sites(m, ps)
+    for lic in ("MAIN", "SEQ-PRE"):
+        group = sorted((s for s in sites.values() if _licence(m, s)[0] == lic), key=lambda s: getattr(s["event"].node, "lineno", 0))
+        if len(group) < 2:
+            continue
+        # the awaited wait comes first: while the scheduler coroutine sits in the blocking wait on the thread futures the event loop is
+        # not served - taken first, it keeps async-thread nodes (and every other coroutine of the loop) from being observed at all
+        kinds_ = [s_["event"].data["kind"] for s_ in group]
+        if "async" in kinds_ and "conc" in kinds_:
+            first_async = kinds_.index("async") < kinds_.index("conc")
+            r.ob(first_async, {"licence": lic, "order of the waits": kinds_})
+            if not first_async:
+                r.violate(f"{m.fn.short}: under the {lic} licence the blocking wait on the thread futures precedes the awaited wait",
+                          _where(m, group[0]["event"].node), "the other licences await the async-thread futures first; here the event loop is "
+                          "blocked before it was given the hand: an async-thread node that needs a sibling coroutine to progress never "
+                          "finishes while a thread node is in flight", kinds_)
     return r
 
 
@@ -1467,7 +1481,7 @@ RULES = {
     "SCH-OWNTHREAD": sch_ownthread, "SCH-POOLOWN": sch_poolown, "SCH-ORIGIN": sch_origin, "SCH-RSET": sch_rset, "SCH-ROOTS": sch_roots, "SCH-DONE": sch_done, "SCH-ONCE": sch_once,
     "SCH-PRUNE": sch_prune, "SCH-BOUND": sch_bound, "SCH-COUNT": sch_count, "SCH-ARMS": sch_arms,
     "SCH-SEQ-PRE": sch_seq_pre, "SCH-SEQ-POST": sch_seq_post, "SCH-PRIO": sch_prio, "SCH-FRESHPICK": sch_freshpick,
-    "SCH-WAITSITES": sch_waitsites, "SCH-WAITMODE": sch_waitmode, "SCH-GUARD": sch_guard, "SCH-MIXWAIT": sch_mixwait,
+    "SCH-WAITSITES": sch_waitsites, "SCH-WAITMODE": sch_waitmode, "SCH-GUARD": sch_guard, "SCH-WAITORDER": sch_waitorder, "SCH-MIXWAIT": sch_mixwait,
     "SCH-PROGRESS": sch_progress, "SCH-EXIT": sch_exit, "SCH-EMPTYWAIT": sch_emptywait, "SCH-DEACT": sch_deact,
     "SCH-ACTIVE": sch_active, "SCH-POOLSIZE": sch_poolsize, "SCH-TASKDONE": sch_taskdone, "SCH-BIDICT": sch_bidict, "SCH-STALEPICK": sch_stalepick, "SCH-ONLYDISPATCH": sch_onlydispatch, "SCH-POOLEXIT": sch_poolexit,
 }
